@@ -16,7 +16,9 @@ import (
 //	canid get  N (kind from len)*N st static att prio mid nid
 //	     st 1 = static CAN-ID set; att 0 = no sender, 1 = sender without bus, 2 = sender on a bus,
 //	     3..6 = attached like 2 and then detached again: 3 RemoveNodeInterface, 4 RemoveAllNodeInterfaces,
-//	     5 RemoveSentMessage, 6 RemoveAllSentMessages
+//	     5 RemoveSentMessage, 6 RemoveAllSentMessages;
+//	     7, 8 = sent by an interface that has NO bus, removed from it (7 RemoveAllSentMessages, 8 RemoveSentMessage)
+//	     and only then the interface is attached to a bus: the message is not attached to anything
 
 type canidStream struct{ baseStream }
 
@@ -104,7 +106,7 @@ func (canidStream) Gen(r *rand.Rand, tier string, idx int) []string {
 		case 3:
 			sc = append(sc, sprintf("canid rem %s %d", head, pick(r, -1, 0, n-1, n, r.Intn(n+1))))
 		case 4:
-			sc = append(sc, sprintf("canid get %s %d %d %d %d %d %d", head, r.Intn(2), rnd32(r), r.Intn(7), r.Intn(4), rnd32(r), rnd32(r)))
+			sc = append(sc, sprintf("canid get %s %d %d %d %d %d %d", head, r.Intn(2), rnd32(r), r.Intn(9), r.Intn(4), rnd32(r), rnd32(r)))
 		}
 	}
 	return sc
@@ -321,7 +323,25 @@ func (e *canidExec) Do(line string) string {
 				return "err " + err.Error()
 			}
 		}
-		if att >= 1 {
+		if att == 7 || att == 8 {
+			node := acmelib.NewNode("n", acmelib.NodeID(n), 1)
+			ni := node.Interfaces()[0]
+			bus := acmelib.NewBus("bus")
+			if err := ni.AddSentMessage(msg); err != nil {
+				return "err " + err.Error()
+			}
+			if att == 7 {
+				ni.RemoveAllSentMessages()
+			} else if err := ni.RemoveSentMessage(msg.EntityID()); err != nil {
+				return "err " + err.Error()
+			}
+			if err := bus.AddNodeInterface(ni); err != nil {
+				return "err " + err.Error()
+			}
+			if !def {
+				bus.SetCANIDBuilder(b)
+			}
+		} else if att >= 1 {
 			node := acmelib.NewNode("n", acmelib.NodeID(n), 1)
 			ni := node.Interfaces()[0]
 			bus := acmelib.NewBus("bus")
